@@ -72,6 +72,19 @@ func TestFinding_LostAckStaleWindow(t *testing.T) {
 		}})
 }
 
+// A window save of member 0 is still under way when it resigns; member 1 (clock one hour ahead of member 0's)
+// serves a term; member 0 is elected again and the delayed save arrives while it initialises: the stored bound
+// must not go back.
+func TestFinding_EarlierTermSaveAppliedInLaterTerm(t *testing.T) {
+	probe(t, "C02/earlier-term-save-applied-in-later-term", tsofix.Case{
+		Cfg: tsofix.Cfg{Members: 2, SaveMs: 3000, UpdMs: 50, MaxGapMs: 1000, TTL: 100000, Offsets: []int64{-3600_000, 1}},
+		Ops: []tsofix.Op{
+			{K: "campaign", M: 0}, {K: "gen", M: 0, Count: 1}, {K: "clockall", D: 3001}, {K: "hold", M: 0},
+			{K: "resign", M: 0}, {K: "campaign", M: 1}, {K: "gen", M: 1, Count: 1}, {K: "resign", M: 1},
+			{K: "campaign", M: 0}, {K: "gen", M: 0, Count: 1},
+		}})
+}
+
 // ---- fault and crash-point enumeration ------------------------------------------------
 //
 // A generated sequential history is executed clean, then once per write txn index with that
